@@ -52,13 +52,11 @@ class Inconclusive(Exception):
 
 
 def run(cmd, timeout=None, cwd=None, mem_kb=None, env=None, stdin=None):
-    """run a command with wall timeout and address-space limit; returns (rc, out, wall, maxrss_kb)"""
-    def pre():
-        os.setsid()
-        if mem_kb:
-            resource.setrlimit(resource.RLIMIT_AS, (mem_kb * 1024, mem_kb * 1024))
+    """run a command with wall timeout and address-space limit; returns (rc, out, wall, 0)"""
+    if mem_kb:
+        cmd = ['prlimit', '--as=%d' % (mem_kb * 1024)] + list(cmd)
     t0 = time.time()
-    p = subprocess.Popen(cmd, stdout=subprocess.PIPE, stderr=subprocess.STDOUT, cwd=cwd, preexec_fn=pre, env=env,
+    p = subprocess.Popen(cmd, stdout=subprocess.PIPE, stderr=subprocess.STDOUT, cwd=cwd, start_new_session=True, env=env,
                          stdin=subprocess.DEVNULL if stdin is None else subprocess.PIPE)
     try:
         out, _ = p.communicate(input=stdin, timeout=timeout)
@@ -108,7 +106,7 @@ def compile_ir(path, defs, work, opt='-O1', tag=None, overlay_rules=True, ubsan=
     if overlay_rules:
         src = overlay.apply(path, work)  # returns scratch copy (or the original) ; raises on rule mismatch
     extra = ['-I', os.path.dirname(path)] if src != path else []
-    key_base = sha(src + ' '.join(flags))
+    key_base = sha(path + ' '.join(flags))
     with _ir_lock:
         lk = _ir_locks.setdefault(key_base, threading.Lock())
     with lk:
@@ -206,11 +204,8 @@ def run_cbmc_sweep(h, files, entry, work, extra=(), timeout=None):
         env = backend_env(b, work)
         t0 = time.time()
 
-        def pre():
-            os.setsid()
-            resource.setrlimit(resource.RLIMIT_AS, (MEM_KB * 1024, MEM_KB * 1024))
-        p = subprocess.Popen(['/usr/bin/time', '-f', 'MAXRSS_KB=%M'] + cmd, stdout=subprocess.PIPE, stderr=subprocess.STDOUT,
-                             preexec_fn=pre, env=env, cwd=work, stdin=subprocess.DEVNULL)
+        p = subprocess.Popen(['prlimit', '--as=%d' % (MEM_KB * 1024), '/usr/bin/time', '-f', 'MAXRSS_KB=%M'] + cmd, stdout=subprocess.PIPE, stderr=subprocess.STDOUT,
+                             start_new_session=True, env=env, cwd=work, stdin=subprocess.DEVNULL)
         with lock:
             procs[b] = p
         try:
@@ -392,17 +387,21 @@ class Job:
         if self.h.route != 'B' or self.h.diff_runs <= 0:
             return dict(runs=0, passed_assumes=0)
         n = 0; live = 0
-        for i in range(self.h.diff_runs):
-            s = str(seed * 1000003 + i)
-            a = run([self.bins['c'], '--seed', s], timeout=60)
-            b = norm_trap(run([self.bins['bc'], '--seed', s], timeout=60))
+        seeds = [str(seed * 1000003 + i) for i in range(self.h.diff_runs)]
+        script = 'for s in %s; do a=$(timeout 60 "%s" --seed $s 2>&1); ra=$?; b=$(timeout 60 "%s" --seed $s 2>&1); rb=$?; printf "%%s\\037%%s\\037%%s\\037%%s\\037%%s\\036" "$s" "$ra" "$a" "$rb" "$b"; done' % (' '.join(seeds), self.bins['c'], self.bins['bc'])
+        rc, out, _, _ = run(['bash', '-c', script], timeout=60 * len(seeds) + 60)
+        for rec in out.split('\x1e'):
+            if not rec.strip(): continue
+            s, ra, a, rb, b = rec.split('\x1f')
+            ra = int(ra); rb = int(rb)
+            if rb in (132, 128 + 4):  # SIGILL from a ubsan trap in the bitcode build == assertion in the generated C
+                rb = 1; b = 'ASSERT-FAIL UB in code under test (ubsan trap)'
             n += 1
-            if (a[0], a[1]) != (b[0], b[1]):
-                raise Inconclusive('translator differential mismatch on seed %s: generated-C rc=%s out=%r vs bitcode rc=%s out=%r' % (s, a[0], a[1][-300:], b[0], b[1][-300:]))
-            if b[0] == 1:
-                # a native assertion failure found by the random tape: genuine failure of the real code path
-                self.res.setdefault('native_random_failures', []).append(dict(seed=s, out=b[1][-300:]))
-            if b[0] == 0:
+            if (ra, a.strip()) != (rb, b.strip()):
+                raise Inconclusive('translator differential mismatch on seed %s: generated-C rc=%s out=%r vs bitcode rc=%s out=%r' % (s, ra, a[-300:], rb, b[-300:]))
+            if rb == 1:
+                self.res.setdefault('native_random_failures', []).append(dict(seed=s, out=b[-300:]))
+            if rb == 0:
                 live += 1
         return dict(runs=n, passed_assumes=live)
 
@@ -440,8 +439,8 @@ class Job:
             r['discharged'] = len(real) - len(bad)
             r['assertions'] = sorted(set(p[1] for p in real))[:40]
             # native builds + translator differential
-            self.build_native()
-            r['differential'] = self.differential(seed)
+            t1 = time.time(); self.build_native(); r['native_build_s'] = round(time.time() - t1, 2)
+            t1 = time.time(); r['differential'] = self.differential(seed); r['differential_s'] = round(time.time() - t1, 2)
             if 'native_random_failures' in r:
                 bad = bad or [('native', r['native_random_failures'][0]['out'], 'FAILURE')]
             if not bad:
@@ -587,7 +586,7 @@ def write_evidence(pid, tier, seed, mod, results, wall, nviol):
                       'tool/rt.c runtime model (allocation, exceptions, libstdc++ out-of-line tree/hash helpers)', 'compat shims: <source_location>, -Dconsteval=constexpr, overlay rules in tool/overlay.py'] + sorted(set(stubs)),
         evaluations=len(results), distinct_nontrivial=len([r for r in passed if r.get('witnesses', 0) > 0]),
         rule='one evaluation = one solver query set (harness x concrete shape/case-split variant), all values inside symbolic; counted non-trivial only if every reachability/satisfiability witness in it was confirmed reachable by the solver (non-vacuous)',
-        samples=samples, queries=[dict(id=r['id'], status=r['status'], wall_s=r['wall_s'], solver_wall_s=r.get('solver_wall_s'), rss_kb=r.get('rss_kb'), backend=r.get('backend'), reason=r.get('reason', '')[:300] if r['status'] != 'pass' else None) for r in results],
+        samples=samples, queries=[dict(id=r['id'], status=r['status'], wall_s=r['wall_s'], build_s=r.get('build_s'), native_build_s=r.get('native_build_s'), differential_s=r.get('differential_s'), solver_wall_s=r.get('solver_wall_s'), rss_kb=r.get('rss_kb'), backend=r.get('backend'), reason=r.get('reason', '')[:300] if r['status'] != 'pass' else None) for r in results],
         functions_encoded=sorted(set(funcs)), stubs=sorted(set(stubs)), bounds=bounds,
         solver_time_s=round(sum(r.get('solver_wall_s', 0) or 0 for r in results), 2), peak_rss_kb=max([r.get('rss_kb', 0) or 0 for r in results] + [0]),
         translator_differential_runs=sum((r.get('differential') or {}).get('runs', 0) for r in results),
